@@ -66,4 +66,7 @@ example : validate facts { enabled := true, minV := tls12, maxV := tls13, client
 example : validate facts { enabled := true, minV := tls11, maxV := tls13, clientAuth := 0, caSet := false, filesExist := true } = false := by
   decide
 
+/-- regenerated from the source on every run: the client-CA pool is built from an empty pool plus the configured CAFile -/
+theorem gen_client_ca_pool : Gen.clientCAPoolStartsEmpty = true := by decide
+
 end Props.C30
